@@ -18,7 +18,7 @@ C(o) == [allowed |-> o.cfg.allowed, tls |-> o.cfg.tls, muxreq |-> o.cfg.muxreq]
 
 \* "mismatch": a real serving plugin (its socket already exists) that this host turns down because of its own configuration
 \* "tinytimeout": a start timeout shorter than it takes to spawn the process
-Causes == {"line", "mismatch", "silent", "tinytimeout", "partial", "exitearly", "closeout"}
+Causes == {"line", "mismatch", "silent", "tinytimeout", "partial", "exitearly", "closeout", "closeboth"}
 StartTimeoutMs == 1500
 Slack == 1500
 
